@@ -43,6 +43,15 @@ template<class Graph> struct Comp {
         bool same = fc.cycle_space_dimension() == fi.cycle_space_dimension() && fc.weak_connected_components() == fi.weak_connected_components();
         for (size_t i = 0; i < m && same; i++) same = fc(b.edge_of[i]) == fi(b.edge_of[i]) && b.idx(fc(i)) == b.idx(fi(i));
         j.b("copy_same", same);
+        // assignment: an index built for ANOTHER graph (different component count) overwritten by this one, and self-assignment
+        Graph aux(5);
+        boost::add_edge(0, 1, aux);
+        parmcb::ForestIndex<Graph> fa(aux);
+        fa = fi;
+        fa = *&fa;
+        bool asame = fa.cycle_space_dimension() == fi.cycle_space_dimension() && fa.weak_connected_components() == fi.weak_connected_components();
+        for (size_t i = 0; i < m && asame; i++) asame = fa(b.edge_of[i]) == fi(b.edge_of[i]) && b.idx(fa(i)) == b.idx(fi(i)) && fa.is_on_forest(b.edge_of[i]) == fi.is_on_forest(b.edge_of[i]);
+        j.b("assign_same", asame);
         emit(j.str());
     }
 
